@@ -32,12 +32,16 @@ RULE = ("seeded random scenarios on real loopback TCP / UNIX sockets and real th
         "injected cb_alloc / muggle_evloop_add_ctx (wrapped or node-allocation) / accept failures and natural poll "
         "capacity rejection, exit from the loop thread, from another thread, or with a context still queued; bursts of "
         "2..4 hand-overs from one or several threads whose wake-ups coalesce (before the loop thread exists / while it "
-        "is held in a callback) followed by data to each and a bounded wait for delivery; each on "
+        "is held in a callback) followed by data to each and a bounded wait for delivery; peers that write 1 byte .. "
+        "several read buffers and close at once / reply after a local half-close / reset with data queued while the "
+        "loop thread is held, so that data and hang-up arrive in one readiness report (AF_UNIX pairs, AF_UNIX and TCP "
+        "accepted, registered before or after); a callback that shuts another context down and exits; each on "
         "select, poll and epoll; event-loop pipe: 1..8 writer threads, injected partial reads / writes / EAGAIN; "
         "non-trivial = the log contains a failure branch, a worker release, or a fragmented read; distinct = distinct log text")
 TRUSTED_BASE = [
     "modelled, not verified: kernel socket semantics (per-connection FIFO byte stream, EOF after the peer's close, "
-    "readiness reporting of select/poll/epoll), accept errors other than the three branches in the code, the "
+    "readiness reporting of select/poll/epoll; the dispatch step is the shape the three loops share: readable => "
+    "cb_read first, CLOSED flag tested afterwards; a reset may drop queued bytes), accept errors other than the three branches in the code, the "
     "spinlock (C04) and the kernel pipe as an atomic FIFO per write(2) call",
     "the reference counter is the sequential saturating counter rspec of C04/Model.v; its use as an atomic step is "
     "justified by C04's refcnt_linearizable (imported, not re-proved)",
@@ -240,6 +244,65 @@ def gen_burst(rng, name, be, tier):
     return V.Case(name, lines + steps, {"kind": "sock", "be": be, "seed": seed})
 
 
+def gen_hup(rng, name, be, tier):
+    """Directed: data and the hang-up of a connection reach the loop as ONE readiness report.  The loop thread is
+    held in connection 0's cb_msg (stall trigger) while peers write and close at once (AF_UNIX pairs, AF_UNIX or TCP
+    accepted connections, also connections accepted / handed over only afterwards), reply after the local side
+    half-closed, or reset with data queued; sizes from 1 byte to several read buffers."""
+    fam = rng.choice(["tcp", "unix", "unix"])
+    seed = rng.below(1 << 30) + 1
+    rbuf = rng.choice([1, 7, 16, 64, 4096])
+    lines = ["cfg be=%s fam=%s hints=64 pool=%d seed=%d rbuf=%d workers=1" % (be, fam, rng.choice([0, 1]), seed, rbuf),
+             "trig 0 3 stall"]
+    sizes = [1, max(1, rbuf - 1), rbuf, rbuf + 1, 3 * rbuf + 5, 2 * rbuf, 4000 if rbuf >= 16 else 200]
+    pre, during, k = ["conn 0"], [], 1
+    for _ in range(rng.range(2, 5)):
+        kind = rng.choice(["pair", "pair", "acc", "late-pair", "late-acc", "half", "reset"])
+        n = rng.choice(sizes)
+        snd = "send %d %d %s" % (k, n, " ".join(map(str, _chunks(rng, n))) if rng.chance(1, 3) else "")
+        if kind in ("pair", "acc"):
+            pre.append(("hand %d" if kind == "pair" else "conn %d") % k)
+            if rng.chance(1, 2):
+                pre.append("send %d 2" % k)
+            during += [snd, "cclose %d" % k]
+        elif kind in ("late-pair", "late-acc"):
+            during += [("hand %d" if kind == "late-pair" else "conn %d") % k, snd, "cclose %d" % k]
+        elif kind == "half":
+            lines.append("trig %d 2 halfclose" % k)
+            pre += ["conn %d" % k if rng.chance(1, 2) else "hand %d" % k, "send %d 2" % k]
+            during += ["waiteof %d" % k, snd, "cclose %d" % k]
+        else:
+            pre.append("conn %d" % k if rng.chance(1, 2) else "hand %d" % k)
+            during += [snd, "creset %d" % k]
+        if rng.chance(1, 4):
+            lines.append("trig %d %d retain 0" % (k, rng.range(0, n)))
+        k += 1
+    steps = pre + ["sync", "send 0 5 2 3", "waitstall"] + during + ["unstall", "sync", "sync"]
+    if rng.chance(1, 2):
+        steps.append("wrel 0")
+    return V.Case(name, lines + steps, {"kind": "sock", "be": be, "seed": seed})
+
+
+def gen_shutexit(rng, name, be, tier):
+    """Directed: a callback of one context shuts ANOTHER registered context down and leaves the loop in the same
+    round: the victim's CLOSED flag is set but its close is never dispatched; on_clear has to release it."""
+    fam = rng.choice(["tcp", "unix"])
+    seed = rng.below(1 << 30) + 1
+    m = rng.range(2, 5)
+    victim = rng.range(1, m - 1) if m > 2 else 1
+    lines = ["cfg be=%s fam=%s hints=64 pool=%d seed=%d rbuf=64 workers=1" % (be, fam, rng.choice([0, 1]), seed),
+             "trig 0 4 shutexit %d" % victim]
+    if rng.chance(1, 2):
+        lines.append("trig %d 1 retain 0" % victim)
+    steps = []
+    for k in range(m):
+        steps.append(("hand %d" if rng.chance(1, 3) else "conn %d") % k)
+    for k in range(1, m):
+        steps.append("send %d 3" % k)
+    steps += ["sync", "send 0 9 4 5", "sync", "wrel 0"]
+    return V.Case(name, lines + steps, {"kind": "sock", "be": be, "seed": seed})
+
+
 def gen_pipe(rng, name, tier):
     w = rng.choice([1, 2, 3, 4, 8])
     per = rng.choice([1, 5, 20, 100, 600 if tier == "quick" else 3000])
@@ -272,6 +335,10 @@ def generate(rng, tier):
             cases.append(c)
         for i in range(8 if tier == "quick" else 40):
             cases.append(gen_burst(r, "b-%s-%d" % (be, i), be, tier))
+        for i in range(10 if tier == "quick" else 50):
+            cases.append(gen_hup(r, "u-%s-%d" % (be, i), be, tier))
+        for i in range(3 if tier == "quick" else 12):
+            cases.append(gen_shutexit(r, "x-%s-%d" % (be, i), be, tier))
     r = rng.fork("pipe")
     for i in range(12 if tier == "quick" else 80):
         cases.append(gen_pipe(r, "p-%d" % i, tier))
@@ -285,6 +352,10 @@ def search(rng, diverging, tier):
             out.append(gen_socket(rng, "search-%s-%d" % (be, i), be, tier))
         for i in range(20):
             out.append(gen_burst(rng, "search-b-%s-%d" % (be, i), be, tier))
+        for i in range(20):
+            out.append(gen_hup(rng, "search-u-%s-%d" % (be, i), be, tier))
+        for i in range(10):
+            out.append(gen_shutexit(rng, "search-x-%s-%d" % (be, i), be, tier))
     for i in range(20):
         out.append(gen_pipe(rng, "search-p-%d" % i, tier))
     return out
@@ -308,7 +379,7 @@ def model_cases(cases, impl_results):
 
 class _Ctx:
     __slots__ = ("by", "conn", "handed", "reg", "ann", "closecb", "rel", "relby", "fdc", "free", "holds",
-                 "got", "eof", "shut", "loopheld", "wzero", "freed_line", "hand_at", "handed_at")
+                 "got", "eof", "shut", "loopheld", "wzero", "freed_line", "hand_at", "handed_at", "rderr")
 
     def __init__(self, by, conn):
         self.by, self.conn = by, conn
@@ -320,6 +391,7 @@ class _Ctx:
         self.holds = {}
         self.got = bytearray()
         self.eof = False
+        self.rderr = False
         self.shut = False
         self.loopheld = 1        # the loop side (queue / ctx_list / pending release) still owns a reference
         self.wzero = False
@@ -327,9 +399,9 @@ class _Ctx:
 
 
 DISPATCH_OPS = {"addctx", "accepterr", "accepted", "allocfail", "alloc", "conn", "msg", "rd", "shut", "retain",
-                "close", "exitreq", "wake", "stalled", "unstall"}
+                "close", "exitreq", "wake", "stalled", "unstall", "halfclose"}
 LOOP_OPS = {"reg", "addctx", "accepterr", "accepted", "allocfail", "alloc", "conn", "free", "msg", "rd", "shut",
-            "retain", "close", "release", "exitreq", "wake", "stalled", "unstall"}
+            "retain", "close", "release", "exitreq", "wake", "stalled", "unstall", "halfclose"}
 
 
 def monitor(case, lines):
@@ -401,6 +473,7 @@ def _monitor_sock(case, lines):
     nextid = 0
     seenF = 0
     wakes = []               # log lines of cb_wake = ends of on_wake
+    peer_closed, peer_reset = set(), set()     # connections whose client end closed gracefully / with a reset
 
     def bad(n, msg):
         return "line %d (%s): %s" % (n, lines[n], msg)
@@ -424,7 +497,7 @@ def _monitor_sock(case, lines):
             return bad(n, "dispatch callback after the run loop started clearing its contexts")
         cid = None
         if op in ("hand", "handed", "reg", "addctx", "alloc", "conn", "free", "msg", "rd", "shut", "retain", "close", "release",
-                  "wrel", "wrelease", "wfree", "wshut", "halloc", "fdclose", "accepterr"):
+                  "wrel", "wrelease", "wfree", "wshut", "halloc", "fdclose", "accepterr", "halfclose"):
             if w[1] == "new":
                 continue
             try:
@@ -450,7 +523,7 @@ def _monitor_sock(case, lines):
             # may already have registered, closed and freed the context by then
             if op != "handed" and c.free and not (op == "fdclose" and c.by == "accept" and c.reg == -1 and c.fdc == 0):
                 return bad(n, "context used after it was freed (freed at line %s)" % c.freed_line)
-            if c.rel and op in ("msg", "rd", "close", "addctx", "conn", "retain", "shut", "reg", "hand", "release",
+            if c.rel and op in ("msg", "rd", "close", "addctx", "conn", "retain", "shut", "halfclose", "reg", "hand", "release",
                                 "wrelease", "wshut", "wrel"):
                 return bad(n, "context used after release")
         if op == "hand":
@@ -503,7 +576,7 @@ def _monitor_sock(case, lines):
             c.ann = 1
             if op == "conn":
                 c.conn = int(w[2]) if int(w[2]) >= 0 else None
-        elif op in ("msg", "rd", "shut", "retain"):
+        elif op in ("msg", "rd", "shut", "retain", "halfclose"):
             if not c.ann:
                 return bad(n, "callback on a context that was never announced")
             if c.closecb:
@@ -511,10 +584,13 @@ def _monitor_sock(case, lines):
             if op == "rd":
                 if w[2] == "eof":
                     c.eof = True
-                    if c.conn is not None and not c.shut and bytes(c.got) != bytes(sent.get(c.conn, b"")):
+                    if (c.conn is not None and not c.shut and c.conn not in peer_reset
+                            and bytes(c.got) != bytes(sent.get(c.conn, b""))):
                         return bad(n, "end of stream after %d bytes but the peer sent %d: bytes lost" % (
                             len(c.got), len(sent.get(c.conn, b""))))
-                elif w[2] != "err":
+                elif w[2] == "err":
+                    c.rderr = True
+                else:
                     c.got += bytes.fromhex(w[2])
                     s = sent.get(c.conn, b"") if c.conn is not None else b""
                     if bytes(c.got) != bytes(s[:len(c.got)]):
@@ -533,6 +609,13 @@ def _monitor_sock(case, lines):
                 return bad(n, "cb_close invoked twice")
             if c.reg != 0:
                 return bad(n, "cb_close on a context that is not registered")
+            # a context that nobody shut down locally, whose reads never failed and whose connection was
+            # not reset is closed because its peer closed: everything the peer wrote before closing was
+            # readable and must have been handed to cb_msg before cb_close
+            if (c.conn is not None and c.conn in peer_closed and c.conn not in peer_reset
+                    and not c.shut and not c.rderr and bytes(c.got) != bytes(sent.get(c.conn, b""))):
+                return bad(n, "cb_close after the peer's close with %d of the %d bytes it had sent never handed to cb_msg "
+                              "(read %d)" % (len(sent.get(c.conn, b"")) - len(c.got), len(sent.get(c.conn, b"")), len(c.got)))
             c.closecb = 1
         elif op == "release":
             if c.rel:
@@ -598,6 +681,10 @@ def _monitor_sock(case, lines):
             if b != exp:
                 return bad(n, "driver sent bytes that are not the scripted payload")
             cur += b
+        elif op == "cclose":
+            peer_closed.add(int(w[1]))
+        elif op == "creset":
+            peer_reset.add(int(w[1]))
         elif op in ("exitreq", "xexit"):
             exiting = True
         elif op == "returned":
@@ -683,7 +770,8 @@ MANIFEST = {
                    "stream, cb_close / cb_release / descriptor close / free happen at most once and free only at count "
                    "zero, nothing touches a released context, every context is freed once the loop has returned and the "
                    "workers have released; on_wake cannot end before the hand-over queue is empty and takes it in queue "
-                   "order, however many add_ctx calls coalesced into the wake-up; the pipe delivers exactly the completed "
+                   "order, however many add_ctx calls coalesced into the wake-up; a hang-up closes an unflagged context only "
+                   "after every byte the peer sent was handed to cb_msg; the pipe delivers exactly the completed "
                    "writes in lock order. Tied to the "
                    "code by trace inclusion of the real callback log (loopback TCP / UNIX sockets, real threads, "
                    "ASan) in the extracted model, plus an independent ownership / byte-equality / accounting monitor."),
